@@ -1,5 +1,6 @@
 import Rare.Proofs.C19Rat
 import Rare.Proofs.C19Complete
+import Rare.Proofs.C19Fuel
 import Rare.Gen.C19
 /-!
 # C19 — math formulas follow the documented precedence; constants equal bound variables
@@ -157,16 +158,22 @@ theorem eval_no_panic (s : Bytes) (err : Err) (h : compile A s = .error err) (m 
     err ≠ .panic m :=
   compileF_noPanic A _ s err h m
 
+/-- **Compilation always returns**: the model's recursion budgets (token loop, nesting of groups)
+    are never exhausted, so for every text `compile` answers either a parse or one of the Go error
+    values – "the model returned" is not an assumption of the other theorems. -/
+theorem compile_returns (s : Bytes) : compile A s ≠ .error .fuel :=
+  compile_noFuel A s
+
 /-- **Malformed formulas are rejected at compile time**: a text that is not the flattening of any
     well-precedenced parse tree with proper literals (unbalanced parentheses, two operands or two
     operators in a row, a dangling operator, `2x`, `1.2.3` …) does not compile – and is rejected
-    by an error value, not by a panic. -/
+    by an error value, not by a panic or a non-return. -/
 theorem malformed_rejected (s : Bytes)
     (h : ¬ ∃ t : Tree, tok s = some t.flatten ∧ WellPrec Gen.C19.orderOfOps t ∧ Deep tok t ∧
       t.allLits (fun v => (classify A v).isSome) = true) :
-    ∃ err, compile A s = .error err ∧ ∀ m, err ≠ .panic m := by
+    ∃ err, compile A s = .error err ∧ (∀ m, err ≠ .panic m) ∧ err ≠ .fuel := by
   cases hc : compile A s with
-  | error err => exact ⟨err, rfl, eval_no_panic A s err hc⟩
+  | error err => exact ⟨err, rfl, eval_no_panic A s err hc, fun h => compile_returns A s (h ▸ hc)⟩
   | ok r =>
     obtain ⟨t, e⟩ := r
     exact absurd ⟨t, parse_wellprec A s t e hc⟩ h
